@@ -1,7 +1,7 @@
 /-
   Shape obligations (listtbl): facts about the CURRENT headers and sources, regenerated on every run by
   translator/shapes.py, that the models take for granted and that no history of practical size shows:
-  qlisttbl: value size and entry count are size_t, the stored hash is 32 bits.
+  qlisttbl: value size (node and getmulti result element) and entry count are size_t, the stored hash is 32 bits.
   A changed width or a new function-local mutable static breaks the `decide` below; the check of the
   family then reports the property as no longer shown (and searches for a failing input with its
   huge-size / concurrent-caller streams).
@@ -12,7 +12,7 @@ namespace Qlibc.Shapes.Listtbl
 open Qlibc.Generated.Shapes
 
 /-- the struct fields are as wide as the model assumes -/
-theorem widths_as_modelled : listtblWidths = [("obj_hash", 4), ("obj_size", 8), ("tbl_num", 8)] := by decide
+theorem widths_as_modelled : listtblWidths = [("obj_hash", 4), ("obj_size", 8), ("tbl_num", 8), ("data_size", 8)] := by decide
 
 /-- no function of this family keeps state in a function-local static object: results depend on the
     arguments (and the container) only, also when several threads are inside at once -/
